@@ -15,7 +15,18 @@ pub fn format_parse_error(input: &str, err: nom::Err<NomError<&str>>) -> String 
     match err {
         nom::Err::Error(e) | nom::Err::Failure(e) => {
             let error_pos = e.input;
-            let offset = input.len() - error_pos.len();
+            // The failing slice is normally a suffix of `input`, but some scanners report an inner
+            // sub-slice; keep the offset inside `input` and on a character boundary so that slicing
+            // and snippet rendering cannot panic on multi-byte text.
+            let mut offset = input.len().saturating_sub(error_pos.len());
+            while !input.is_char_boundary(offset) {
+                offset -= 1;
+            }
+            // The annotated span covers the whole offending character, not just its first byte.
+            let span_end = input[offset..]
+                .chars()
+                .next()
+                .map_or(offset, |character| offset + character.len_utf8());
             
             // Calculate line and column numbers
             let mut line_no = 1;
@@ -94,7 +105,7 @@ pub fn format_parse_error(input: &str, err: nom::Err<NomError<&str>>) -> String 
                             .fold(false)
                             .annotation(
                                 AnnotationKind::Primary
-                                    .span(offset..offset.saturating_add(1).min(input.len()))
+                                    .span(offset..span_end)
                                     .label(&final_label)
                             )
                     )
